@@ -219,10 +219,30 @@ class Runner(object):
     def violation(self, check, op, detail):
         self.violations.append({'check': check, 'op_index': self.op_index, 'op': op, 'detail': detail})
 
+    def reachable(self, cache):
+        """Objects the program can still get hold of: through an index, a handle, the save queue, or by navigation from those."""
+        seen, todo = {}, []
+        def add(o):
+            if o is not None and id(o) not in seen:
+                seen[id(o)] = o; todo.append(o)
+        for index in list(cache.indexes.values()):
+            for o in list(index.values()): add(o)
+        for o in self.handles: add(o)
+        for o in cache.objects_to_save: add(o)
+        while todo:
+            o = todo.pop()
+            for attr, v in list((o._vals_ or {}).items()):
+                if not attr.reverse or v is None: continue
+                if attr.is_collection:
+                    for x in list(v): add(x)
+                elif isinstance(v, core.Entity): add(v)
+        return list(seen.values())
+
     def check_oracles(self, op, res):
         cache = self.cache
         if cache is None or not cache.is_alive or cache.indexes is None: return
         NL = core.NOT_LOADED
+        objects = self.reachable(cache)
         # C11: indexes versus attribute values, both directions
         for key, index in list(cache.indexes.items()):
             for val, obj in list(index.items()):
@@ -236,7 +256,7 @@ class Runner(object):
                 if cur != val or not live:
                     self.violation('c11-index-stale', op, 'index %s.%s[%r] -> %r whose value is %r, status %s (op result %s)' % (
                         type(obj).__name__, kname, val, obj, cur, st, res))
-        for obj in list(cache.objects):
+        for obj in objects:
             st = obj._status_
             if st not in ('deleted', 'cancelled') and obj._pkval_ is not None:
                 if cache.indexes.get(obj._pk_attrs_, {}).get(obj._pkval_) is not obj:
@@ -256,7 +276,7 @@ class Runner(object):
                 self.violation('c11-two-objects-one-pk', op, 'handles %d and another denote distinct objects %r' % (i, o))
             seen[k] = o
         # C12: both ends
-        for obj in list(cache.objects):
+        for obj in objects:
             if obj._status_ in DEL_STATUSES: continue
             for attr in obj._attrs_:
                 if not attr.reverse: continue
@@ -275,7 +295,7 @@ class Runner(object):
                             self.violation('c12-item-without-backref', op, '%r.%s contains %r (status %s) whose %s is %r' % (
                                 obj, attr.name, item, item._status_, attr.reverse.name, back))
         # queue: objects that have to be saved are queued
-        for obj in list(cache.objects):
+        for obj in objects:
             st = obj._status_
             if st in ('created', 'modified', 'marked_to_delete'):
                 pos = obj._save_pos_
